@@ -518,6 +518,35 @@ pub fn run(_env: &Env, run: &Run) -> (Stats, Coverage) {
             let s: String = t.iter().collect();
             core_ops(&s, &t, st);
         }
+        // the next scalar value right behind it, and the same code point in a higher plane inside a
+        // ZWNJ context (lookups that walk a table entry by entry run off its end here)
+        if let Some(nx) = (c as u32 + 1..=0x10FFFF).find_map(char::from_u32) {
+            for t in [[c, nx], [nx, c]] {
+                let s: String = t.iter().collect();
+                core_ops(&s, &t, st);
+                for p in [Prof::Ucm, Prof::Nick] {
+                    let r = rule(p, RuleFn::Dir, &s);
+                    st.evaluations += 1;
+                    if matches!(r, Out::Panic(_)) {
+                        bad("directionality_rule", &s, p.name(), &r, st);
+                    }
+                }
+            }
+        }
+        for a in alias_chars(c) {
+            let t = ['\u{628}', '\u{200c}', c, a];
+            let s: String = t.iter().collect();
+            let o = ctx_rule(CtxRule::Zwnj, &s, 1);
+            st.evaluations += 1;
+            if matches!(o, CtxOut::Panic(_)) {
+                st.violation("panic", || Case::new("ctx").s(&s).n(1).x(json!("rule_zero_width_nonjoiner")), "Ok / NotApplicable / Undefined".into(), format!("{:?}", o));
+            }
+            let r = allows(Class::Freeform, &s);
+            st.evaluations += 1;
+            if matches!(r, OutU::Panic(_)) {
+                bad("allows", &s, "Freeform", &r, st);
+            }
+        }
         // cancellation: the owned rule functions see the bare pair; the prefixed forms go through
         // the profiles whose earlier rule rewrites that prefix
         for t in [[ '\u{130}', c], [c, '\u{1e9e}']] {
